@@ -16,100 +16,145 @@ const (
 type segmentTimelineGenerator struct {
 	segDataBuffers map[string]*segDataBuffer
 	dstDir         string
-	counters       *seqCounters
-	latestSeqNr    uint32 // Used in segment times generation
+	latestSeqNr    uint32 // Last number in the latest generated segment times
 	oldestSeqNr    uint32 // First number in the latest generated segment times
-	windowSize     uint32
+	windowSize     uint32 // Max number of segments in the segment times
+	bufferSize     uint32 // Number of segments in the buffer of a track
 	_nrTracks      uint32
 	_started       bool
 	_shifted       bool
+	_published     bool // Segment times have been generated
 }
 
 func newSegmentTimelineGenerator(dstDir string, windowSize uint32) *segmentTimelineGenerator {
 	return &segmentTimelineGenerator{
 		segDataBuffers: make(map[string]*segDataBuffer),
 		dstDir:         dstDir,
-		counters:       newSeqCounters(windowSize),
 		windowSize:     windowSize,
+		bufferSize:     windowSize,
 	}
 }
 
 // addSegmentData adds the data of a complete segment. nrTracks is the current number of tracks of the channel.
-// A sequence number is complete when all these tracks have delivered a segment with that number.
-func (s *segmentTimelineGenerator) addSegmentData(log *slog.Logger, item recSegData, nrTracks uint32) (newSeqNr uint32, err error) {
+// A sequence number is complete when all these tracks have a segment with that number in their buffers.
+// The return value update tells that the range of complete numbers has changed, so that the MPD should be regenerated.
+func (s *segmentTimelineGenerator) addSegmentData(log *slog.Logger, item recSegData, nrTracks uint32) (update bool, err error) {
 	s._nrTracks = nrTracks
 	if s._shifted && !item.isShifted {
-		return 0, nil
+		return false, nil
 	}
 	trName := item.name
 	if _, ok := s.segDataBuffers[trName]; !ok {
-		s.segDataBuffers[trName] = newSegDataBuffer(s.windowSize)
+		s.segDataBuffers[trName] = newSegDataBuffer(s.bufferSize)
 	}
 	err = s.segDataBuffers[trName].add(item)
 	if err != nil {
-		return 0, err
+		return false, err
 	}
-	s.counters.add(item.seqNr)
-	if s._started {
-		// Try generate segmentTimeline when all tracks have segments.
-		log.Debug("Starting segmentTimeline generation", "nrTracks", len(s.segDataBuffers))
-		newSeqNr = s.counters.newFullCounter(s._nrTracks, s.latestSeqNr)
-		if newSeqNr == 0 && s.latestSeqNr != 0 {
-			// No new full counter, but the window may have moved so that the oldest numbers in the MPD
-			// are outside and their segments will be removed. Then the MPD must be regenerated as well.
-			firstNr, lastNr := s.counters.fullRange(s._nrTracks)
-			if lastNr == s.latestSeqNr && firstNr != s.oldestSeqNr {
-				newSeqNr = lastNr
-			}
-		}
-		return newSeqNr, nil
+	if !s._started {
+		return false, nil
 	}
-	return 0, nil
+	// Try generate segmentTimeline when all tracks have segments.
+	log.Debug("Starting segmentTimeline generation", "nrTracks", len(s.segDataBuffers))
+	firstNr, lastNr, ok := s.completeRange(s._nrTracks)
+	switch {
+	case !ok:
+		return false, nil
+	case !s._published || lastNr > s.latestSeqNr:
+		return true, nil // New complete number
+	case lastNr == s.latestSeqNr && firstNr != s.oldestSeqNr:
+		// No new complete number, but the oldest numbers in the MPD have left the buffer of this track
+		// and their segments will be removed. Then the MPD must be regenerated as well.
+		return true, nil
+	}
+	return false, nil
 }
 
-func (s *segmentTimelineGenerator) resize(newWindowSize uint32) {
-	for _, buf := range s.segDataBuffers {
-		buf.resize(newWindowSize)
+// completeRange returns the first and last number of the newest range of consecutive sequence numbers
+// for which all nrTracks tracks have a segment in their buffers. If there is no such number, ok is false.
+// The tracks may be far apart, so the range is looked for where the buffers of all tracks overlap.
+func (s *segmentTimelineGenerator) completeRange(nrTracks uint32) (first, last uint32, ok bool) {
+	if nrTracks == 0 || uint32(len(s.segDataBuffers)) < nrTracks {
+		return 0, 0, false // Some track has not delivered any segment yet
 	}
-	s.counters.resize(newWindowSize)
+	var lowest, highest uint32 // Limits of the overlap
+	isFirstBuf := true
+	for _, sdb := range s.segDataBuffers {
+		nrItems := sdb.nrItems()
+		if nrItems == 0 {
+			return 0, 0, false
+		}
+		bufFirst, bufLast := sdb.items[0].seqNr, sdb.items[nrItems-1].seqNr
+		if isFirstBuf || bufFirst > lowest {
+			lowest = bufFirst
+		}
+		if isFirstBuf || bufLast < highest {
+			highest = bufLast
+		}
+		isFirstBuf = false
+	}
+	for seqNr := highest; seqNr >= lowest; seqNr-- {
+		inAll := true
+		for _, sdb := range s.segDataBuffers {
+			if _, found := sdb.getItem(seqNr); !found {
+				inAll = false
+				break
+			}
+		}
+		if !inAll && ok {
+			break // Hole below the range
+		}
+		if inAll {
+			if !ok {
+				last, ok = seqNr, true
+			}
+			first = seqNr
+		}
+		if seqNr == 0 || (ok && last-first+1 == s.windowSize) {
+			break
+		}
+	}
+	return first, last, ok
+}
+
+func (s *segmentTimelineGenerator) resize(newBufferSize uint32) {
+	for _, buf := range s.segDataBuffers {
+		buf.resize(newBufferSize)
+	}
+	s.bufferSize = newBufferSize
 }
 
 func (s *segmentTimelineGenerator) dropSeqNr(seqNr uint32) {
 	for _, buf := range s.segDataBuffers {
 		buf.dropSeqNr(seqNr)
 	}
-	s.counters.drop(seqNr)
 }
 
+// start starts the generation of segment times with at most newWindowSize segments.
+// The buffers hold one segment more, like the storage, so that they tell what every track has stored.
 func (s *segmentTimelineGenerator) start(newWindowSize uint32, isShifted bool) {
 	s._started = true
 	s._shifted = isShifted
-	s.resize(newWindowSize)
+	s.resize(newWindowSize + 1)
 	s.windowSize = uint32(newWindowSize)
 	if isShifted {
 		for _, buf := range s.segDataBuffers {
-			unshifted := buf.removeUnshifted()
-			if len(unshifted) > 0 {
-				for _, seqNr := range unshifted {
-					s.counters.drop(seqNr)
-				}
-			}
+			buf.removeUnshifted()
 		}
 	}
 }
 
 // generateSegmentTimelineNrMPD generates the SegmentTimelineNr MPD for the channel and writes it to disk.
-// The times are taken from the longest ending consecutive range of sequence numbers of all segments.
-// Latest number is >= newLatestSeqNr depending on the highest number in the buffers.
-// newLatestSeqNr is equal to s.latestSeqNr when only the start of the range has changed.
-// s.latestSeqNr is updated to the highest number used in the segment times.
-func (sg *segmentTimelineGenerator) generateSegmentTimelineNrMPD(log *slog.Logger, newLatestSeqNr uint32, ch *channel, nowMS int64) error {
-	firstNr, lastNr := sg.counters.fullRange(sg._nrTracks)
-	if newLatestSeqNr < sg.latestSeqNr {
-		return fmt.Errorf("newLatestSeqNr %d is smaller than latestSeqNr %d", newLatestSeqNr, sg.latestSeqNr)
+// The times are taken from the newest consecutive range of sequence numbers that all tracks have segments for.
+// s.latestSeqNr and s.oldestSeqNr are updated to the last and first number used in the segment times.
+// The last number is never decreased.
+func (sg *segmentTimelineGenerator) generateSegmentTimelineNrMPD(log *slog.Logger, ch *channel, nowMS int64) error {
+	firstNr, lastNr, ok := sg.completeRange(sg._nrTracks)
+	if !ok {
+		return fmt.Errorf("no sequence number with segments from all %d tracks", sg._nrTracks)
 	}
-	if newLatestSeqNr > lastNr {
-		return fmt.Errorf("newLatestSeqNr %d is bigger than highest buffer number %d", newLatestSeqNr, lastNr)
+	if sg._published && lastNr < sg.latestSeqNr {
+		return fmt.Errorf("new latest seqNr %d is smaller than latestSeqNr %d", lastNr, sg.latestSeqNr)
 	}
 	ch.mu.RLock()
 	manifest := mpd.Clone(ch.mpd)
@@ -123,6 +168,7 @@ func (sg *segmentTimelineGenerator) generateSegmentTimelineNrMPD(log *slog.Logge
 	}
 	sg.latestSeqNr = lastNr
 	sg.oldestSeqNr = firstNr
+	sg._published = true
 	tmpFile := filepath.Join(ch.dir, timelineNrMPD+".tmp")
 	ofh, err := os.Create(tmpFile)
 	if err != nil {
@@ -142,7 +188,7 @@ func (sg *segmentTimelineGenerator) generateSegmentTimelineNrMPD(log *slog.Logge
 	if err != nil {
 		log.Error("Failed to rename segment times", "err", err)
 	}
-	endTime := int64(startTime*1000 + int64(newLatestSeqNr+1)*int64(ch.masterSegDuration)*1000/int64(ch.masterTimescale))
+	endTime := int64(startTime*1000 + int64(lastNr+1)*int64(ch.masterSegDuration)*1000/int64(ch.masterTimescale))
 	log.Info("Wrote MPD", "name", timelineNrMPD, "oldestNr", firstNr, "latestNr", lastNr, "nowMS", nowMS, "endTime", endTime,
 		"diff", nowMS-endTime)
 	return nil
@@ -190,162 +236,4 @@ func (sg *segmentTimelineGenerator) modifySegmentTemplate(as *mpd.AdaptationSetT
 	}
 	stl.S = append(stl.S, s)
 	return nil
-}
-
-// seqCounter is a counter for a sequence number and counts how many tracks have the same sequence number.
-
-type seqCounter struct {
-	seqNr uint32
-	count uint32
-}
-
-type seqCounters struct {
-	counters    []seqCounter
-	_nrCounters uint32
-	windowSize  uint32
-}
-
-func newSeqCounters(windowSize uint32) *seqCounters {
-	return &seqCounters{
-		counters:    make([]seqCounter, windowSize),
-		_nrCounters: 0,
-		windowSize:  windowSize,
-	}
-
-}
-
-func (s *seqCounters) resize(newWindowSize uint32) {
-	switch {
-	case newWindowSize > s.windowSize:
-		newCounters := make([]seqCounter, newWindowSize)
-		copy(newCounters, s.counters)
-		s.counters = newCounters
-	case newWindowSize < s.windowSize:
-		if s._nrCounters > newWindowSize { // Keep the newest counters
-			copy(s.counters, s.counters[s._nrCounters-newWindowSize:s._nrCounters])
-			s._nrCounters = newWindowSize
-		}
-		s.counters = s.counters[:newWindowSize]
-	default:
-		// No change
-	}
-	s.windowSize = newWindowSize
-}
-
-func (s *seqCounters) add(seqNr uint32) {
-	if s._nrCounters == 0 {
-		s.counters[0] = seqCounter{seqNr: seqNr, count: 1}
-		s._nrCounters++
-		return
-	}
-	currMaxSeqNr := s.counters[s._nrCounters-1].seqNr
-	currMinSeqNr := s.minFromMax(currMaxSeqNr)
-	switch {
-	case seqNr < currMinSeqNr:
-		return // Ignore this seqNr
-	case seqNr > currMaxSeqNr:
-		// New number, we may need to truncate min value
-		currMinSeqNr = s.minFromMax(seqNr)
-		nrToDrop := uint32(0)
-		for i := 0; i < int(s._nrCounters); i++ {
-			if s.counters[i].seqNr < uint32(currMinSeqNr) {
-				nrToDrop++
-			}
-		}
-		if nrToDrop == 0 && s._nrCounters == s.windowSize {
-			nrToDrop = 1 // Full, make room for the new counter
-		}
-		if nrToDrop > 0 {
-			copy(s.counters, s.counters[nrToDrop:])
-			s._nrCounters -= nrToDrop
-		}
-		s.counters[s._nrCounters] = seqCounter{seqNr: seqNr, count: 1}
-		s._nrCounters++
-	default: // seqNr is in the current window
-		for i := 0; i < int(s._nrCounters); i++ {
-			if seqNr == s.counters[i].seqNr {
-				s.counters[i].count++
-				return
-			}
-		}
-		// seqNr is not in the counters, we need to insert it
-		// We can insert in the middle and keep all previous counters
-		for i := s._nrCounters - 1; i >= 1; i-- {
-			if seqNr > s.counters[i-1].seqNr {
-				if s._nrCounters < s.windowSize {
-					// Shift counters i to s._nrCounters-1 to i+1 to s._nrCounters
-					copy(s.counters[i+1:s._nrCounters], s.counters[i:s._nrCounters-1])
-				} else {
-					// Shift counters 1 to i-1 to 0 to i-2
-					copy(s.counters[1:i], s.counters[:i-1])
-				}
-				s.counters[i-1] = seqCounter{seqNr: seqNr, count: 1}
-				return
-			}
-		}
-	}
-}
-
-// newFullCounter returns the seqNr of a new full counter if bigger than maxSeqNr.
-// If not, zero is returned.
-func (s *seqCounters) newFullCounter(nrTracks, maxSeqNr uint32) uint32 {
-	if s._nrCounters == 0 {
-		return 0
-	}
-	for i := int(s._nrCounters - 1); i >= 0; i-- {
-		if s.counters[i].count == nrTracks && s.counters[i].seqNr > maxSeqNr {
-			return s.counters[i].seqNr
-		}
-		if s.counters[i].seqNr <= maxSeqNr {
-			return 0
-		}
-	}
-	return 0
-}
-
-// fullRange returns the first and last seqNr of a range of full counters.
-// No holes are allowed in the range, and the search is done from the end of the counters.
-func (s *seqCounters) fullRange(nrTracks uint32) (first, last uint32) {
-	if s._nrCounters == 0 {
-		return 0, 0
-	}
-	lastIdx := 0
-	for i := int(s._nrCounters - 1); i >= 0; i-- {
-		if s.counters[i].count < nrTracks {
-			if last == 0 {
-				continue // Continue until we find a full counter
-			}
-			break // We have found the last full counter
-		}
-		seqNr := s.counters[i].seqNr
-		if last == 0 {
-			last = seqNr
-			lastIdx = i
-		}
-
-		if int(seqNr) != int(last)-(lastIdx-i) {
-			break
-		}
-		first = seqNr
-	}
-	return first, last
-}
-
-func (s *seqCounters) minFromMax(maxSeqNr uint32) uint32 {
-	if maxSeqNr < s.windowSize {
-		return 0
-	}
-	return maxSeqNr - s.windowSize + 1
-}
-
-func (s *seqCounters) drop(seqNr uint32) {
-	for i := 0; i < int(s._nrCounters); i++ {
-		if s.counters[i].seqNr == seqNr {
-			if i < int(s.windowSize)-1 {
-				copy(s.counters[i:], s.counters[i+1:])
-			}
-			s._nrCounters--
-			return
-		}
-	}
 }
